@@ -37,10 +37,9 @@ func TestDemoC10C(t *testing.T) {
 
 	// an unrelated run: a script that (pointlessly, but legally) stores
 	// something under the name of a number method on one of its own numbers
-	unrelated := runC10C(`BEGIN { n = 1; n.round = "nearest"; n.floor = 0; print n }`, `[]`)
-	if unrelated != "stdout=1\n|json=[]" {
-		t.Fatalf("unexpected result of the unrelated run: %q", unrelated)
-	}
+	// (since fix 956d942 in the verified tree such a store is a runtime error; whatever the outcome of
+	// the unrelated run, it must not influence the run after it)
+	_ = runC10C(`BEGIN { n = 1; n.round = "nearest"; n.floor = 0; print n }`, `[]`)
 
 	after := runC10C(subject, input)
 	if after != before {
